@@ -741,6 +741,10 @@ def c14(pid, tier, work, replay):
     runs.append(("c14-wide-race", "viprace", ["rpcwide", "1", str(s), "40", "3", "pipe", "0", "@TRACE", "@STATUS"], "real"))
     # a Remote without a configured limit of pending calls: 70 calls in flight at once, none may be dropped
     runs.append(("c14-wide-nolimit", "vipsim", ["rpcwide", "1", str(s), "70", "1", "mem", "2", "@TRACE", "@STATUS"], "fake"))
+    # abandoned calls piling up past the limit of pending entries (50, the oldest 10 evicted), fresh calls made during the evictions
+    for transport in ("mem", "pipe"):
+        runs.append(("c14-lateburst-%s" % transport, "vipsim",
+                     ["rpcstress", str(s * 100 + 77), sized(tier, "1", "2"), str(sized(tier, 80, 100)), transport, "3", "@TRACE", "@STATUS"], "fake"))
     runs.append(("c14-first", "viprace", ["rpcfirst", str(s), str(sized(tier, 150, 2000)), "4", "@TRACE", "@STATUS"], "real"))
     return event_check(
         pid, tier, work, "VipRpcTrace", "VipRpcTrace.cfg", [("VipRpcMC", "VipRpcMC.cfg")], runs,
